@@ -410,6 +410,18 @@ func InnerText(node *html.Node) string {
 	return text
 }
 
+// InnerHTML returns the HTML content of an element. Unlike dom.InnerHTML it keeps the white
+// space at both ends: the content is put next to that of other blocks inside the same pair
+// of tags, where that white space is what separates its words from theirs.
+func InnerHTML(node *html.Node) string {
+	var buffer bytes.Buffer
+	for child := node.FirstChild; child != nil; child = child.NextSibling {
+		buffer.WriteString(dom.OuterHTML(child))
+	}
+
+	return buffer.String()
+}
+
 // GetArea in original code returns area of a node by multiplying
 // offsetWidth and offsetHeight. Since it's not possible in Go, we
 // simply return 0. NEED-COMPUTE-CSS
